@@ -34,6 +34,7 @@ def interpFRefines (content : Bytes → Bytes) (route isSchema : Bytes → Bool)
   | .proxy o c max => proxyFRefines (interpFRefines content route isSchema o) (cacheFCaches content c) max
   | .overlay l u => overlayFRefines (interpFRefines content route isSchema l) (interpFRefines content route isSchema u)
   | .shard2 a b => shard2FRefines route (interpFRefines content route isSchema a) (interpFRefines content route isSchema b)
+  | .shardBy r a b => shard2FRefines r (interpFRefines content route isSchema a) (interpFRefines content route isSchema b)
   | .replicaStrict a b => replica2FRefines (interpFRefines content route isSchema a) (interpFRefines content route isSchema b)
   | .condStrict t e => cond2FRefines isSchema (interpFRefines content route isSchema t) (interpFRefines content route isSchema e)
 
@@ -48,6 +49,7 @@ def FCfg.pending (route isSchema : Bytes → Bool) : (c : FCfg) → (c.interp ro
   | .proxy o c _, s => o.pending route isSchema s.1 ++ c.pending s.2.1
   | .overlay l u, s => l.pending route isSchema s.1 ++ u.pending route isSchema s.2.1
   | .shard2 a b, s => a.pending route isSchema s.1 ++ b.pending route isSchema s.2
+  | .shardBy _ a b, s => a.pending route isSchema s.1 ++ b.pending route isSchema s.2
   | .replicaStrict a b, s => a.pending route isSchema s.1 ++ b.pending route isSchema s.2
   | .condStrict t e, s => t.pending route isSchema s.1 ++ e.pending route isSchema s.2
 
@@ -70,6 +72,9 @@ theorem quiet_of_pending (content : Bytes → Bytes) (route isSchema : Bytes →
     ⟨quiet_of_pending content route isSchema l s.1 (fun f hf => h f (List.mem_append_left _ hf)),
      quiet_of_pending content route isSchema u s.2.1 (fun f hf => h f (List.mem_append_right _ hf))⟩
   | .shard2 a b, s, h =>
+    ⟨quiet_of_pending content route isSchema a s.1 (fun f hf => h f (List.mem_append_left _ hf)),
+     quiet_of_pending content route isSchema b s.2 (fun f hf => h f (List.mem_append_right _ hf))⟩
+  | .shardBy _ a b, s, h =>
     ⟨quiet_of_pending content route isSchema a s.1 (fun f hf => h f (List.mem_append_left _ hf)),
      quiet_of_pending content route isSchema b s.2 (fun f hf => h f (List.mem_append_right _ hf))⟩
   | .replicaStrict a b, s, h =>
@@ -181,6 +186,21 @@ proved model and `Pk.Stores.interp` of the driver's configuration are the same t
 theorem C13_model_is_driver_model (route isSchema : Bytes → Bool) (c : FCfg) (h : c.strictFree = true) :
     Stores.interp route isSchema c.toCfg = c.interp route isSchema := FCfg.interp_toCfg route isSchema c h
 
+/-- an n-way shard over `k :: r` (routing `sum key % n`) as a fault tree: sub-store `i` against the
+rest (the n-way merged enumeration is the nested two-way one: `C01_merged_nway_is_nested`); an n-way
+strict replica is the right-nested `replicaStrict` -/
+def FCfg.shardNest (sum : Bytes → Nat) (n : Nat) : Nat → FCfg → List FCfg → FCfg
+  | _, k, [] => k
+  | i, k, k' :: r => .shardBy (fun key => sum key % n != i) k (FCfg.shardNest sum n (i + 1) k' r)
+
+/-- the fault tree of an n-way shard is the tree the driver builds for `shardN` -/
+theorem C13_shardN_is_driver_tree (sum : Bytes → Nat) (n : Nat) : ∀ (r : List FCfg) (k : FCfg) (i : Nat),
+    (FCfg.shardNest sum n i k r).toCfg = Cfg.shardNest sum n i k.toCfg (r.map FCfg.toCfg)
+  | [], _, _ => rfl
+  | k' :: r, k, i => by
+    simp only [FCfg.shardNest, FCfg.toCfg, List.map_cons, Cfg.shardNest]
+    rw [C13_shardN_is_driver_tree sum n r k' (i + 1)]
+
 /-- proxycache over ANY fault-tolerant origin and ANY fault-tolerant store used as its cache -/
 def C13_proxy_over_any_cache {content : Bytes → Bytes} {origin cache : Impl} (Fo : FRefines content origin)
     (Fc : FRefines content cache) (max : Nat) : FRefines content (proxyImpl origin cache max) :=
@@ -211,6 +231,17 @@ example : exTree.strictFree = true := by decide
 example : ∀ f ∈ exTree.pending exRoute (fun _ => false)
     ((exTree.interp exRoute (fun _ => false)).runState (exTree.interp exRoute (fun _ => false)).init exHist),
     f = Fault.none := by decide
+
+/-- a three-way shard (routing by key length) whose second and third sub-stores fail: the receive
+routed to the second fails without effect, the one routed to the third takes effect but loses its
+answer; a failing sub-store fails the whole merged enumeration once, then everything is exact -/
+def exTree3 : FCfg := FCfg.shardNest (fun k => k.length) 3 0 (.leaf []) [.leaf [.before], .leaf [.after, .before]]
+
+example : (exTree3.interp exRoute (fun _ => false)).run (exTree3.interp exRoute (fun _ => false)).init
+    [.recv [1, 1, 1] [7], .recv [1] [8], .recv [1, 1] [9], .enum [] 5, .recv [1] [8], .enum [] 5] =
+    [.sized 1, .err, .err, .err, .sized 1, .refs [([1], 1), ([1, 1], 1), ([1, 1, 1], 1)]] := by decide
+
+example : exTree3.strictFree = true := by decide
 
 /-! ## where the code is NOT fault-atomic -/
 
